@@ -14,7 +14,7 @@ RULE = ("generated object graphs (lists, tuples, sets, dicts, plain objects; nes
         "py/id numbering and the decoded graph's shape compared in Coq; (rec) stored in a MemoryRecording and read "
         "twice; (cas) saved to and fetched from the in-memory, file and S3 cassettes along a random history of lookups, "
         "fetches and in-place mutations; (play) recorded through TapeRecorder and replayed several times while the "
-        "replayed code mutates what it is handed; (copy) intercepted with copy-on-interception on and off.  The direct "
+        "replayed code mutates what it is handed; (copy) intercepted with copy-on-interception on and off, with and without an input data handler whose recorded form embeds live call arguments (out-parameter, request object).  The direct "
         "predicate walks the real objects by id() (no shared mutable node between handed-out value and store / other "
         "hand-outs) and compares order-insensitive snapshots before and after the mutations.  non-trivial = at least "
         "one mutable container in a handed-out value; distinct = distinct case")
@@ -27,6 +27,7 @@ ASSUMPTIONS = ["json.loads(json.dumps(x)) is the identity on the JSON produced b
 TRUSTED = ["lib/heapgraph.py: graph builder, id()-based walk of mutable nodes, shape/snapshot printers, mutation scripts"]
 
 CTYPES = ["mem", "file", "s3"]
+HFORMS = ("result", "pair", "dict", "req", "buf_only", "nested", "fresh")
 KEYS = [k for k in pv.KEY_TEXTS]
 ATTRS = ["x", "y", "name", "é", "_p", "items"]
 CLS = ["lib.pyvals.Pt", "lib.pyvals.Qt"]
@@ -176,9 +177,18 @@ def generate(rng, tier):
             pre = [rng.choice(["none", "lookup", "lookup_meta", "fetch_mutate"]) for _ in range(rng.randrange(2, 4))]
             cases.append(dict(kind="play", ctype=ctype, vin=value_graph(rng), vout=value_graph(rng),
                               vdata=value_graph(rng), pre_steps=pre, script=rand_script(rng)))
-    for _ in range(40 if q else 600):
-        cases.append(dict(kind="copy", copy=rng.random() < 0.75, vin=value_graph(rng, big=rng.random() < 0.3),
-                          vout=value_graph(rng), script=rand_script(rng)))
+    for _ in range(60 if q else 900):
+        # copy-on-interception; two thirds with an input DATA HANDLER whose recorded form is built from the result and/or
+        # from live objects of the call (an out-parameter the input fills, a request object passed by keyword)
+        c = dict(kind="copy", copy=rng.random() < 0.75, vin=value_graph(rng, big=rng.random() < 0.3),
+                 vout=value_graph(rng), script=rand_script(rng),
+                 hform=rng.choice([None, None, None] + list(HFORMS)), via=rng.choice(["arg", "arg", "kwarg"]),
+                 static=rng.random() < 0.25,
+                 vbuf=gen_graph(rng, size=5, depth=2, share=0.15, root_kind=rng.choice(["list", "list", "dict", "obj"]),
+                                empty_obj=0.0, reserved_keys=0.0),
+                 vreq=gen_graph(rng, size=4, depth=2, share=0.1, root_kind=rng.choice(["dict", "obj", "list"]),
+                                empty_obj=0.0, reserved_keys=0.0))
+        cases.append(c)
     return cases
 
 
@@ -348,12 +358,17 @@ def direct(case, obs):
                 f.append(("copy-not-recorded", "%s: nothing recorded" % o["tag"]))
                 continue
             if case["copy"] and o["copy_possible"]:
+                how = "data handler form %r" % case.get("hform") if (case.get("hform") and o["tag"] == "in") else "no data handler"
                 if _sh(o["share_recorded_result"]):
-                    f.append(("copy-on-recorded-shares-result", "%s: with copy-on-interception the recorded value shares %r with the value "
-                              "returned to the service" % (o["tag"], o["share_recorded_result"])))
+                    f.append(("copy-on-recorded-shares-result", "%s (%s): with copy-on-interception the recorded value shares %r with the value "
+                              "returned to the service" % (o["tag"], how, o["share_recorded_result"])))
+                if _sh(o.get("share_recorded_args")):
+                    f.append(("copy-on-recorded-shares-live-argument", "%s (%s): with copy-on-interception the recorded value shares %r with an "
+                              "object the caller passed in (out-parameter / request) and keeps using" %
+                              (o["tag"], how, o["share_recorded_args"])))
                 if not o["recorded_equals_copy_at_capture"]:
-                    f.append(("copy-on-recording-follows-later-mutation", "%s: with copy-on-interception the recorded value is not the copy "
-                              "taken at capture: %s vs %s" % (o["tag"], o.get("recorded"), o.get("at_capture"))))
+                    f.append(("copy-on-recording-follows-later-mutation", "%s (%s): with copy-on-interception the recorded value is not the copy "
+                              "of what was captured: %s vs %s" % (o["tag"], how, o.get("recorded_snap"), o.get("at_capture"))))
     return f
 
 
@@ -407,7 +422,7 @@ def _graphs(case):
         return [g for _, g in case["data"]]
     if k == "play":
         return [case["vin"], case["vout"], case["vdata"]]
-    return [case["vin"], case["vout"]]
+    return [case["vin"], case["vout"]] + [case[k] for k in ("vbuf", "vreq") if k in case]
 
 
 def _has_sharing(g):
@@ -438,6 +453,9 @@ def features(case):
         f.add("before-replay:" + s)
     if case["kind"] == "copy":
         f.add("copy-flag:%s" % case["copy"])
+        f.add("data-handler:%s" % case.get("hform"))
+        f.add("out-parameter-via:%s" % case.get("via"))
+        f.add("static-input" if case.get("static") else "instance-input")
     return f
 
 
